@@ -126,3 +126,33 @@ Proof.
     + apply lines_ok_b_sound. vm_compute. reflexivity.
   - repeat split; vm_compute; reflexivity.
 Qed.
+
+(* The object hypotheses of the statement are needed: outside them the code (first opaque object in OAM order, no
+   limit per line) departs from the DMG composition (smallest X first, ten objects per line).
+   - object 0 at X = 20 and object 1 at X = 16, same rows, both solid: at x = 12 the DMG shows object 1 (OBP1 -> shade 0),
+     the code shows object 0 (OBP0 -> shade 3);
+   - eleven solid objects on line 0, the eleventh at X = 100: the DMG does not display it. *)
+Definition ex_unsorted : scene :=
+  scene_set_regs (mkScene false false false false false false false 0 0 0 0 pal_zero pal_zero pal_zero ex_vram
+                          (mem_of_list [(0, 16); (1, 20); (2, 2); (3, 0); (4, 16); (5, 16); (6, 2); (7, 16)]))
+                 147 0 0 0 0 228 228 27.
+Definition ex_eleven : scene :=
+  scene_set_regs (mkScene false false false false false false false 0 0 0 0 pal_zero pal_zero pal_zero ex_vram
+                          (mem_of_list (flat_map (fun i => [(4 * i, 16); (4 * i + 1, 8 * i + 8); (4 * i + 2, 2)]) (upto 10)
+                                        ++ [(40, 16); (41, 100); (42, 2)])))
+                 147 0 0 0 0 228 228 27.
+
+Example C15_hypotheses_needed :
+  (scene_wf ex_unsorted /\ regs_ok ex_unsorted /\
+   render_pixel ex_unsorted (overlaps_for_line ex_unsorted 0) 12 0 = Ok 3 /\ spec_pixel ex_unsorted 12 0 = 0) /\
+  (scene_wf ex_eleven /\ regs_ok ex_eleven /\
+   render_pixel ex_eleven (overlaps_for_line ex_eleven 0) 95 0 = Ok 3 /\ spec_pixel ex_eleven 95 0 = 0).
+Proof.
+  split; (split; [|split; [|split; vm_compute; reflexivity]]).
+  - split; [apply byte_mem_of_list; vm_compute; reflexivity|].
+    split; [apply byte_mem_of_list; vm_compute; reflexivity|]. vm_compute. repeat split; reflexivity.
+  - split; [reflexivity|]. split; [reflexivity|]. intros H; discriminate H.
+  - split; [apply byte_mem_of_list; vm_compute; reflexivity|].
+    split; [apply byte_mem_of_list; vm_compute; reflexivity|]. vm_compute. repeat split; reflexivity.
+  - split; [reflexivity|]. split; [reflexivity|]. intros H; discriminate H.
+Qed.
